@@ -1,6 +1,202 @@
-From Coq Require Import List NArith Bool.
+(* C15 — property theorems.  Only statements (each closed by [exact] of a
+   lemma of Proofs.v), witnesses and non-vacuity examples.
+
+   All theorems quantify over both initial conditions of the store (directory
+   missing / existing and empty), every list of processes started by [mk_proc]
+   (any number of projects, any programs of install / use / gc / unlink
+   operations on any build-ids, any quota and autoClean settings) and over
+   every schedule (interleaving of their steps and clock ticks). *)
+From Coq Require Import List NArith Bool Arith Permutation Sorted.
 Require Import BobV.C15.Model BobV.C15.Proofs.
 Import ListNotations.
 Open Scope N_scope.
-Example placeholder_nonvacuous : run (init []) [Tick] = tick (init []).
-Proof. reflexivity. Qed.
+
+(* A directory that is visible under a package name contains the audit trail,
+   the workspace tree and pkg.json, and the tree has the recorded hash. *)
+Theorem visible_is_complete_and_hashed : forall dir procs sched q d,
+  wf_procs procs -> lookup q (st_store (run (init dir procs) sched)) = Some d ->
+  d_audit d = true /\ exists m, d_meta d = Some m /\ d_tree d = Some (m_hash m).
+Proof. exact visible_is_complete_and_hashed_proof. Qed.
+
+(* ... pkg.json is empty on disk only while a user holds its exclusive lock
+   with exactly that text in its write buffer. *)
+Theorem truncated_pkg_json_has_writer : forall dir procs sched q d,
+  wf_procs procs -> lookup q (st_store (run (init dir procs) sched)) = Some d -> d_trunc d = true ->
+  exists j prj, nth_error (st_procs (run (init dir procs) sched)) j = Some prj /\
+     pkg_lock prj = Some (q, true) /\ p_dirty prj = true /\ d_meta d = Some (p_pmeta prj).
+Proof. exact truncated_has_writer_proof. Qed.
+
+(* The two-level lock protocol: an exclusive holder of repo.json excludes every
+   other holder; an exclusive holder of a pkg.json excludes every other holder. *)
+Theorem lock_protocol_excludes : forall dir procs sched i j pi pj,
+  wf_procs procs -> i <> j ->
+  nth_error (st_procs (run (init dir procs) sched)) i = Some pi ->
+  nth_error (st_procs (run (init dir procs) sched)) j = Some pj ->
+  (repo_mode (p_pc pi) = Some true -> repo_mode (p_pc pj) = None) /\
+  (forall q, pkg_lock pi = Some (q, true) -> forall m, pkg_lock pj <> Some (q, m)).
+Proof. exact lock_protocol_proof. Qed.
+
+(* Per build-id: successful renames into the store = moves to an attic + (1 if
+   it is installed now).  Without a collection in between a build-id is
+   installed at most once, whatever the interleaving of the installers. *)
+Theorem installed_at_most_once : forall dir procs sched p,
+  let s := run (init dir procs) sched in
+  count_log (true, p) (st_log s) = (count_log (false, p) (st_log s) + (if has_key p (st_store s) then 1 else 0))%nat.
+Proof. exact installed_at_most_once_proof. Qed.
+
+(* repo.json (as last written) lists every package once; every listed package
+   is installed and listed with its own size; every installed package is listed
+   or its installer stands between its rename and its repo.json update; the
+   exclusive holder's copy is the file; when nobody holds the lock exclusively
+   the file on disk is that text. *)
+Theorem repo_size_is_sum : forall dir procs sched,
+  wf_procs procs ->
+  let s := run (init dir procs) sched in
+  NoDup (map fst (pkgs s)) /\
+  (forall q sz, In (q, sz) (pkgs s) ->
+     exists d m, lookup q (st_store s) = Some d /\ d_meta d = Some m /\ m_size m = sz) /\
+  (forall q, has_key q (st_store s) = true ->
+     In q (map fst (pkgs s)) \/
+     exists i pr, nth_error (st_procs s) i = Some pr /\ pend (p_pc pr) = true /\ o_pkg (cur pr) = q) /\
+  (forall i pr, nth_error (st_procs s) i = Some pr -> repo_mode (p_pc pr) = Some true ->
+     pkgs s = p_meta pr /\ st_rtrunc s = p_dirty pr) /\
+  ((forall i pr, nth_error (st_procs s) i = Some pr -> repo_mode (p_pc pr) <> Some true) -> disk_repo s = st_repo s).
+Proof. exact repo_size_is_sum_proof. Qed.
+
+(* Every gc run, at every point of its collection loop: what has been
+   collected so far followed by what is still queued is the sorted list of the
+   scanned candidates (so the collected ones are the oldest); without --used
+   every candidate was unused when scanned and is not the package being
+   installed; every collected candidate was collected while the size was still
+   over the quota (or --all-unused asked for it); when the loop has stopped
+   nothing is queued or the quota is met. *)
+Theorem auto_gc_only_unused_oldest_first_until_quota : forall dir procs sched g pr,
+  wf_procs procs -> nth_error (st_procs (run (init dir procs) sched)) g = Some pr ->
+  p_pc pr = GMove \/ p_pc pr = GUnlock ->
+  (forall c, In c (p_cands pr) ->
+     (c_unused c = true -> is_newpkg pr (c_id c) = false) /\ (g_used pr = false -> c_unused c = true)) /\
+  Permutation (p_done pr ++ p_queue pr) (p_cands pr) /\
+  StronglySorted cand_le (p_done pr ++ p_queue pr) /\
+  sizes (p_queue pr) <= p_size pr /\
+  (forall pre c post, p_done pr = pre ++ c :: post ->
+     must_go (p_quota pr) (g_unused pr) c (p_size pr + sizes (c :: post)) = true) /\
+  (p_pc pr = GMove -> exists c rest, p_queue pr = c :: rest /\ must_go (p_quota pr) (g_unused pr) c (p_size pr) = true) /\
+  (p_pc pr = GUnlock -> p_queue pr = [] \/
+     exists c rest, p_queue pr = c :: rest /\ must_go (p_quota pr) (g_unused pr) c (p_size pr) = false).
+Proof. exact auto_gc_only_unused_oldest_first_until_quota_proof. Qed.
+
+(* among candidates of the same kind the order is by age *)
+Theorem sorted_means_oldest_first : forall a b, cand_le a b -> c_unused a = c_unused b -> c_mtime a <= c_mtime b.
+Proof. exact cand_le_mtime. Qed.
+
+(* never_collected_while_used, full statement (FALSE of the code, finding F8):
+     forall dir procs sched g q w, wf_procs procs ->
+       collects (run (init dir procs) sched) g q -> not_forced (run (init dir procs) sched) g ->
+       ~ uses (run (init dir procs) sched) w q.
+   Refuted by the schedule below: P0 installs package 1; P1's
+   useSharedPackage(1) returns (workspace 20 recorded in users, both locks
+   released); P2 installs package 2 over the quota, its automatic gc finds no
+   link of workspace 20 yet and moves package 1 to the attic; P1's builder then
+   creates the symlink. *)
+Definition f8_procs : list proc :=
+  [ mk_proc (Some 15) true [{| o_kind := KInstall; o_pkg := 1; o_ws := 10; o_tree := 101; o_size := 10; o_expect := 101;
+                               o_link := false; o_used := false; o_unused := false; o_dry := false |}];
+    mk_proc (Some 15) true [{| o_kind := KUse; o_pkg := 1; o_ws := 20; o_tree := 0; o_size := 0; o_expect := 0;
+                               o_link := false; o_used := false; o_unused := false; o_dry := false |}];
+    mk_proc (Some 15) true [{| o_kind := KInstall; o_pkg := 2; o_ws := 30; o_tree := 102; o_size := 10; o_expect := 102;
+                               o_link := true; o_used := false; o_unused := false; o_dry := false |}] ].
+
+Definition f8_sched : list action :=
+  steps_of 0 11 ++ [Tick] ++ steps_of 1 8 ++ [Tick] ++ steps_of 2 17.
+
+Theorem never_collected_while_used_refuted :
+  exists dir procs sched g q w, wf_procs procs /\
+    collects (run (init dir procs) sched) g q /\ not_forced (run (init dir procs) sched) g /\
+    recorded (run (init dir procs) sched) q w /\ uses (run (init dir procs) sched) w q.
+Proof.
+  exists false, f8_procs, f8_sched, 2%nat, 1, 20.
+  split; [intros pr [<-|[<-|[<-|[]]]]; eexists; eexists; eexists; reflexivity|].
+  split; [vm_compute; eexists; eexists; eexists; repeat split; reflexivity|].
+  split; [vm_compute; eexists; split; reflexivity|].
+  split; [vm_compute; eexists; eexists; split; [reflexivity|split; [reflexivity|right; left; reflexivity]]|].
+  right. exists 1%nat. vm_compute. eexists. repeat split; left; reflexivity.
+Qed.
+
+(* What does hold ("uses" = the link exists when gc, holding the repository
+   lock exclusively, scans the package): a gc without --used that moves q to
+   its attic has, earlier in the same run, taken the shared lock on q's
+   pkg.json at a moment when no workspace recorded there had its link on q.
+   MISSING for the full statement: the link of a recorded user may be created
+   after that moment (F8); closing the window needs the repository lock held
+   across builder code. *)
+Theorem never_collected_while_used_partial : forall dir procs sched g q,
+  wf_procs procs ->
+  collects (run (init dir procs) sched) g q -> not_forced (run (init dir procs) sched) g ->
+  exists sched0 rest, sched = sched0 ++ Step g :: rest /\
+    scans (run (init dir procs) sched0) g q /\
+    (forall w, recorded (run (init dir procs) sched0) q w -> lookup w (st_links (run (init dir procs) sched0)) <> Some q) /\
+    ops_left (run (init dir procs) sched0) g = ops_left (run (init dir procs) sched) g.
+Proof. exact never_collected_while_used_partial_proof. Qed.
+
+(* No operation of any process ever fails except installSharedPackage called
+   with a tree that does not hash to the recorded result hash, and the
+   TypeError of a gc without configured quota (clean --shared --used
+   --all-unused).  In particular: no missing file, no corrupt or half written
+   meta data, whatever the other projects do and also on an empty store. *)
+Theorem no_spurious_failure : forall dir procs sched i pr f,
+  wf_procs procs -> nth_error (st_procs (run (init dir procs) sched)) i = Some pr -> In (RFail f) (p_res pr) ->
+  f = FHash \/ (f = FType /\ p_quota pr = None).
+Proof. exact no_spurious_failure_proof. Qed.
+
+(* ------------------------------------------------------------------ non-vacuity *)
+Definition mo (k : okind) (p w t sz e : N) (l u un d : bool) : op :=
+  {| o_kind := k; o_pkg := p; o_ws := w; o_tree := t; o_size := sz; o_expect := e; o_link := l;
+     o_used := u; o_unused := un; o_dry := d |}.
+
+Definition two_installers : list proc :=
+  [ mk_proc None true [mo KInstall 1 10 101 10 101 true false false false];
+    mk_proc None true [mo KInstall 1 20 101 10 101 true false false false] ].
+
+(* both prepare the package, the second loses the rename race, is recorded as user and both link *)
+Example installed_at_most_once_nonvacuous :
+  let s := run (init false two_installers) (steps_of 0 3 ++ steps_of 1 3 ++ steps_of 0 20 ++ steps_of 1 20) in
+  map p_res (st_procs s) = [[RInstall true]; [RInstall false]] /\
+  st_log s = [(true, 1)] /\ pkgs s = [(1, 10)] /\
+  recorded s 1 10 /\ recorded s 1 20 /\ st_links s = [(10, 1); (20, 1)].
+Proof.
+  vm_compute. repeat split; try reflexivity; eexists; eexists; repeat split; try reflexivity; cbn; auto.
+Qed.
+
+Example visible_nonvacuous :
+  exists d, lookup 1 (st_store (run (init false two_installers) (steps_of 0 4))) = Some d /\ p_pc (nth 0 (st_procs (run (init false two_installers) (steps_of 0 4))) (mk_proc None false [])) = IOpenRepo.
+Proof. vm_compute. eexists; split; reflexivity. Qed.
+
+(* gc on a store where nothing has been installed yet returns 0 (finding F6, fixed) *)
+Example gc_on_empty_store_nonvacuous :
+  map p_res (st_procs (run (init true [mk_proc (Some 10) true [mo KGc 0 0 0 0 0 false false true false];
+                                  mk_proc None true [mo KUse 1 20 0 0 0 false false false false]])
+                           (steps_of 0 3 ++ steps_of 1 8)))
+  = [[RGc (Some 0) []]; [RUse false]].
+Proof. vm_compute. reflexivity. Qed.
+
+(* both failure classes exist: a wrong hash, and --used --all-unused without quota *)
+Example no_spurious_failure_nonvacuous :
+  map p_res (st_procs (run (init false [mk_proc None true [mo KInstall 1 10 101 10 999 true false false false;
+                                                     mo KInstall 1 10 101 10 101 true false false false;
+                                                     mo KGc 0 0 0 0 0 false true true false]])
+                           (steps_of 0 40)))
+  = [[RFail FType; RInstall true; RFail FHash]].
+Proof. vm_compute. reflexivity. Qed.
+
+(* the automatic gc of the third install removes the oldest unused package and stops when the quota is met *)
+Definition three_installs : list proc :=
+  [ mk_proc (Some 25) true [mo KInstall 1 10 101 10 101 false false false false];
+    mk_proc (Some 25) true [mo KInstall 2 20 102 10 102 false false false false];
+    mk_proc (Some 25) true [mo KInstall 3 30 103 10 103 true false false false] ].
+
+Example auto_gc_nonvacuous :
+  let s := run (init false three_installs) (steps_of 0 12 ++ [Tick] ++ steps_of 1 12 ++ [Tick] ++ steps_of 2 21) in
+  let pr := nth 2 (st_procs s) (mk_proc None false []) in
+  p_pc pr = GUnlock /\ map c_id (p_done pr) = [1] /\ map c_id (p_queue pr) = [2] /\ p_size pr = 20 /\
+  map fst (st_store s) = [2; 3] /\ st_log s = [(true, 1); (true, 2); (true, 3); (false, 1)].
+Proof. vm_compute. repeat split; reflexivity. Qed.
